@@ -272,7 +272,7 @@ def make_packages(ctx):
     pks = hand_packages(rng)
     n_new, n_map, n_enum, n_rest = ctx.n((4, 2, 1, 1), (18, 6, 3, 3))
     for _ in range(n_new):
-        pk = detgen.gen_new_pkg(rng, {"n": rng.choice([2, 3, 3, 4]), "opt": False, "generic": 0.05})
+        pk = detgen.gen_new_pkg(rng, {"n": rng.choice(ctx.n([2, 3, 3], [2, 3, 3, 4])), "opt": False, "generic": 0.05})
         if rng.random() < 0.6:
             # declare embedded types first, so that `-file=` processes them before their embedders (well-formed for -getset)
             pk = detgen.build_new_pkg(pk["listed"], pk["flags"], pk["star"], render=detgen.deps_first_order(pk["listed"]))
@@ -631,11 +631,17 @@ def run(ctx, obl):
             # -type=list: one removed type and the removed member; all-in-one modes: all of them
             members = [e for e in shr if e[0] in ("drop-field", "drop-const", "drop-method")]
             drops = [e for e in shr if e not in members]
-            mine = shr if mode != "sep" else drops[-1:] + members
+            if ctx.tier == "quick":
+                # all-in-one modes: the last type removed (the new output is the old one cut short) and, in turn, another type or
+                # a member; -type=list: in turn a type or a member
+                alt_ = (drops[1:] + members) if i % 2 else (members + drops[1:])
+                mine = (drops[:1] + alt_[:1]) if mode != "sep" else ((drops[-1:] + members) if i % 2 else (members + drops[-1:]))[:1]
+            else:
+                mine = shr if mode != "sep" else drops[-1:] + members
             for lab, _ in mine:
                 res.hist("edits", "shrink-" + lab)
             job = {"id": "p%d%s" % (i, {"sep": "s", "aio": "a", "star": "t"}[mode]), "pk": pk, "edited": pke, "mode": mode,
-                   "nexec": max(nexec, pk.get("nexec", 0)), "shrinks": mine, "nrepeat": ctx.n(2, 10 ** 6), "nfresh_edit": ctx.n(1, 2)}
+                   "nexec": max(nexec, pk.get("nexec", 0)), "shrinks": mine, "nrepeat": ctx.n(1, 10 ** 6), "nfresh_edit": ctx.n(1, 2)}
             # the environment legs: for the first job of each (sub-command, mode), up to a tier-dependent number (they share
             # one alternative, initially empty, build cache - the Go build cache is safe for concurrent use)
             if (pk["cmd"], mode) not in seen_cmd and len(seen_cmd) < ctx.n(2, 12):
@@ -817,7 +823,7 @@ def run(ctx, obl):
                              "slowest_jobs": sorted(((ob.get("secs", 0), j["id"], j["pk"]["cmd"], j["mode"], j["nexec"]) for j, ob in zip(jobs, results)), reverse=True)[:5]}
     res.rule = ("generated packages (new: struct trees with cross embeds, -getset/-json, embedded types declared before or after their embedders; map incl. chains of "
                 "nested embedded pointer structs; enum; rest) x modes (-type=list, -file=, -type=* when a go:generate line is present) x histories: fresh in N "
-                "directories, repeat (quick: in two of them, thorough: in each; a third time in the first), delete outputs + rerun, source edits with the previous output left in place vs the edited "
+                "directories, repeat (quick: in the first, thorough: in each; then a third time in the first), delete outputs + rerun, source edits with the previous output left in place vs the edited "
                 "sources generated in a clean directory - one edit that GROWS the output (a field / constant / method added) and edits that SHRINK it (the last type of the file "
                 "removed: the new all-in-one output is the old one cut short; the first / a middle type removed; a field, a constant, a method removed), "
                 "separate -> all-in-one -> separate, a second absolute location of different depth; for one job per (sub-command, mode) also another environment "
